@@ -231,14 +231,25 @@ theorem select_default :
   refine ⟨by rfl, fun m => by simp [specDefault], ?_⟩
   decide
 
+/-- **C22-lkm-acceptance.** Every check the repository's acceptance tests run on kernel-module samples
+(`LKM_CWE` in test/src/lib.rs) is a known check and is contained in `MODULES_LKM`: the kernel-module
+subset cannot silently lose a check whose warnings the acceptance tests expect. -/
+theorem lkm_subset_covers_acceptance :
+    ∀ c ∈ Gen.Modules.lkmAcceptance, c ∈ modulesLkm ∧ c ∈ names allModules := by decide
+
 /-- **C22-lkm.** A run on a Linux kernel module (no `--partial`) executes exactly the known checks
 named in `MODULES_LKM`. -/
 theorem select_lkm :
     selectReal none true = .ok (specLkm allModules modulesLkm) ∧
     (∀ m, m ∈ specLkm allModules modulesLkm ↔ m ∈ allModules ∧ m.name ∈ modulesLkm) ∧
     (specLkm allModules modulesLkm).Nodup := by
-  refine ⟨by rfl, fun m => by simp [specLkm], ?_⟩
-  decide
+  refine ⟨by rfl, fun m => ?_, by decide⟩
+  simp only [specLkm, List.mem_filter, Bool.or_eq_true, List.contains_iff_mem]
+  constructor
+  · rintro ⟨hm, h | h⟩
+    · exact ⟨hm, h⟩
+    · exact ⟨hm, (lkm_subset_covers_acceptance m.name h).1⟩
+  · rintro ⟨hm, h⟩; exact ⟨hm, Or.inl h⟩
 
 /-- **C22-kernel-module.** The classification the kernel-module filter depends on: the code treats an
 input as a Linux kernel module exactly if it is a relocatable object with BOTH marker sections — for
